@@ -881,6 +881,10 @@ V('v10.4', 'C10', 'F', 'C10.R3', 'handler returns 0', (CONT, 'VectorContainer._l
                         return index_function(period)
                     except Exception as e:
                         return 0"""))
+V('v10.9', 'C10', 'F', 'C10.R3', "revert F28: tuple labels broadcast against a NumPy span",
+  (CONT, 'VectorContainer._locate_period_in_span_fallback', "np.asarray(span, dtype=object) == target).nonzero()", "np.asarray(span, dtype=object) == period).nonzero()"))
+V('v10.s4', 'C10', 'S', None, 'fallback compares the label with each element in turn',
+  (CONT, 'VectorContainer._locate_period_in_span_fallback', "locations = np.asarray(np.asarray(span, dtype=object) == target).nonzero()", "locations = np.asarray([x == period for x in span], dtype=bool).nonzero()"))
 V('v10.4b', 'C10', 'F', 'C10.R3', 'fallback returns the first of several matches', (CONT, 'VectorContainer._locate_period_in_span_fallback', 'if len(positions) == 1:', 'if len(positions) >= 1:'))
 V('v10.4c', 'C10', 'F', 'C10.R3', 'fallback: no match returns -1', (CONT, 'VectorContainer._locate_period_in_span_fallback', """        if len(positions) == 0:
             raise KeyError(period)
